@@ -435,7 +435,13 @@ impl<'a, 't> Gen<'a, 't> {
     pub fn fresh_name(&mut self) -> String {
         self.name_counter += 1;
         const BASE: &[&str] = &["a", "a1", "a10", "a1b", "b", "pkg", "x9", "Name_"];
-        format!("{}{}", BASE[self.tape.below(BASE.len())], self.name_counter)
+        // a base that ends in a digit gets a separator: "a1" + 3 and "a" + 13 must not give the same name
+        let b = BASE[self.tape.below(BASE.len())];
+        if b.ends_with(|c: char| c.is_ascii_digit()) {
+            format!("{}_{}", b, self.name_counter)
+        } else {
+            format!("{}{}", b, self.name_counter)
+        }
     }
 
     /// create a node of the given type with its mandatory parts (SHORT-NAME, required attributes)
